@@ -25,11 +25,11 @@ UT = "orquestra.quantum.operators._utils"
 MANIFEST = {
     "engine": "engine-M",
     "category": "other",
-    "technique": "contract-based verification: postconditions of hermitian_conjugated and reverse_qubit_order ('denotes the conjugate transpose' / 'denotes conjugation by the bit-reversal permutation') generated from the real text over exact symbolic coefficients and decided for all coefficients, exhaustively over Pauli strings on <= 3 qubits; the scipy-based matrix assembly, the numpy trace-product expansion and the expectation value are checked by exhaustive native enumeration (complete by linearity for each listed width, bounded in the width)",
-    "text": "Two clauses are proved for all coefficients; the sparse assembly and Pauli expansion depend on scipy/numpy element-ordering contracts outside the verifier's reach and are decided exhaustively per width (all 4^n strings; all real/imaginary matrix units) - bounded in n, hence level 'other'.",
+    "technique": "contract-based deductive verification: the Kronecker chain of get_sparse_operator for ALL operators, terms and register widths (Engine V over an abstract matrix algebra with associative kron: for every term the factor list handed to the Kronecker reduction folds to coefficient (x) identity-padded chain of the term's Pauli matrices on exactly n qubits with qubit 0 leftmost - loop invariant over the sorted operations, constant terms and terms ending on the last qubit included; too small n raises; the zero operator gives the zero matrix); postconditions of hermitian_conjugated and reverse_qubit_order ('denotes the conjugate transpose' / 'denotes conjugation by the bit-reversal permutation') generated from the real text over exact symbolic coefficients and decided for all coefficients, exhaustively over Pauli strings on <= 3 qubits; the scipy-based matrix assembly, the numpy trace-product expansion and the expectation value are checked by exhaustive native enumeration (complete by linearity for each listed width, bounded in the width)",
+    "text": "The padding / ordering logic of the sparse conversion is proved for all inputs relative to the abstract Kronecker algebra; two clauses are proved for all coefficients on <= 3 qubits; the sparse assembly and Pauli expansion depend on scipy/numpy element-ordering contracts outside the verifier's reach and are decided exhaustively per width (all 4^n strings; all real/imaginary matrix units) - bounded in n, hence level 'other'.",
     "note": "Trusted: exact domain, scipy/numpy executed natively for the bounded parts. Bounds: n <= 3 (4 thorough) for assembly, n <= 2 (3 thorough) for expansion.",
 }
-TRUSTED = ["vfw/trig.py exact polynomials", "scipy.sparse / numpy executed natively in the bounded part"]
+TRUSTED = ["vfw/trig.py exact polynomials", "abstract matrix algebra of props/C09chain.py: kron associative, the 1x1 identity neutral on the right, reduce = left fold, identity blocks = Kronecker powers of the 2x2 identity (Lean twin identity_block_kron), sorted() orders a term's operations by strictly increasing qubit", "scipy.sparse / numpy executed natively in the bounded part"]
 ASSUMPTIONS = ["scipy's CSC->COO data order and nonzero() order (the assembly relies on them) are exercised, not proved",
                "bounded in register width as listed; complete in coefficients (symbolic part) / by real-linearity (expansion)"]
 EXTRA = {"explanation": "symbolic obligations from the current text via Engine M; exhaustive native enumeration for the scipy/numpy parts"}
@@ -110,6 +110,8 @@ def build(tier, seed):
                   "reverse_qubit_order(op, n) denotes P op P^T with P the bit-reversal permutation and is an involution (n = 3, 4; all strings on 3 qubits; all coefficients)", timeout=600))
 
     nmax = 3 if tier == "quick" else 4
+    from props import C09chain
+    obs.extend(C09chain.build(vprop.enum_ob("x", [], lambda: range(1, 3), _check_sparse, "").run))
     obs.append(vprop.enum_ob("C09.sparse.enum", [ST + ":get_sparse_operator", ST + ":_kronecker_operators"], lambda: range(1, nmax + 1), _check_sparse,
                              "bounded-exhaustive per width: get_sparse_operator of every one of the 4^n Pauli strings (complex coefficient, identity padding to n..n+2) equals the Kronecker "
                              "definition with qubit 0 leftmost; unsimplified sums with repeated strings, constants, the zero operator; too small n raises", timeout=900))
